@@ -698,7 +698,9 @@ impl Property for C14 {
          library writer). Per file the damage space is enumerated: EVERY byte offset as cut point under 2-3 read-chunk policies, \
          every byte of every marker occurrence (8 single-bit flips + 1 substitution) and of the magic; and, on the intact file, one \
          one-off read error (Other, WouldBlock, TimedOut, ConnectionReset - the source would go on afterwards) at EVERY offset and \
-         all four kinds at every block boundary: exactly the blocks read completely before it, one error, nothing after it. One evaluation = one damaged \
+         all four kinds at every block boundary: exactly the blocks read completely before it, one error, nothing after it. Marker \
+         damage and a ninth of the cuts are also met by a consumer that advances with nth(k); one file in ten holds bytes values \
+         equal to its own sync marker. One evaluation = one damaged \
          read through one iterator (Reader, and into_deser_iter for corpus files). distinct_nontrivial counts distinct \
          (codec, damage region, iterator) triples, region in {magic, meta, header-marker, boundary, inside-count, after-count, \
          inside-size, payload, payload-end, trailer} or marker:{header,trailer} or magic."
@@ -722,7 +724,7 @@ impl Property for C14 {
         }
     }
     fn required_probes(&self) -> Vec<&'static str> {
-        vec!["probe.cut_inside_multibyte_count", "probe.cut_between_count_and_size", "probe.cut_inside_trailer", "probe.zero_width_items", "probe.read_error_on_block_boundary"]
+        vec!["probe.cut_inside_multibyte_count", "probe.cut_between_count_and_size", "probe.cut_inside_trailer", "probe.zero_width_items", "probe.read_error_on_block_boundary", "probe.consumer_advances_with_nth"]
     }
 
     fn generate(&self, rng: &mut Rng, _run: u64, _tier: Tier) -> Option<Case> {
